@@ -18,8 +18,9 @@ VARIABLES l, viol, poisoned,
           rs, rl,   \* [ChunkIds -> NoReq | [peer, t]] latest request frame per chunk (zero side / limit side)
           lf,       \* [ChunkIds -> Nat] consecutive failed sends of the pending fetch
           due,      \* [ChunkIds -> ms] no retry may be made by a tick before this time
+          seen,     \* providers that were sent a request in this behaviour (statistics only)
           stats
-vars == <<l, viol, poisoned, flimit, alimit, binit, bmax, succ, exp, ppf, pheld, rs, rl, lf, due, stats>>
+vars == <<l, viol, poisoned, flimit, alimit, binit, bmax, succ, exp, ppf, pheld, rs, rl, lf, due, seen, stats>>
 
 Stats0 == [requests |-> 0, failedsends |-> 0, reannounce_inflight |-> 0, arrivals |-> 0, dropdue |-> 0, zerochecks |-> 0,
            zerodue |-> 0, atlimit |-> 0, doubled |-> 0, capped |-> 0]
@@ -27,7 +28,7 @@ Init == /\ l = 1 /\ viol = <<>> /\ poisoned = FALSE
         /\ flimit = 0 /\ alimit = 0 /\ binit = 0 /\ bmax = 0 /\ succ = 0
         /\ exp = [c \in ChunkIds |-> -1] /\ ppf = <<>> /\ pheld = {}
         /\ rs = [c \in ChunkIds |-> NoReq] /\ rl = [c \in ChunkIds |-> NoReq]
-        /\ lf = [c \in ChunkIds |-> 0] /\ due = [c \in ChunkIds |-> 0]
+        /\ lf = [c \in ChunkIds |-> 0] /\ due = [c \in ChunkIds |-> 0] /\ seen = {}
         /\ stats = Stats0
 
 HasRow(rows, c) == \E i \in DOMAIN rows : rows[i][1] = c
@@ -46,10 +47,10 @@ Step(e) ==
         /\ flimit' = e.flimit /\ alimit' = e.alimit /\ binit' = e.binit /\ bmax' = e.bmax /\ succ' = e.succ
         /\ exp' = [c \in ChunkIds |-> -1] /\ ppf' = <<>> /\ pheld' = {}
         /\ rs' = [c \in ChunkIds |-> NoReq] /\ rl' = [c \in ChunkIds |-> NoReq]
-        /\ lf' = [c \in ChunkIds |-> 0] /\ due' = [c \in ChunkIds |-> 0]
+        /\ lf' = [c \in ChunkIds |-> 0] /\ due' = [c \in ChunkIds |-> 0] /\ seen' = {}
         /\ poisoned' = FALSE /\ UNCHANGED <<viol, stats>>
-    [] poisoned -> UNCHANGED <<viol, poisoned, flimit, alimit, binit, bmax, succ, exp, ppf, pheld, rs, rl, lf, due, stats>>
-    [] ~Has(e, "pf") -> UNCHANGED <<viol, poisoned, flimit, alimit, binit, bmax, succ, exp, ppf, pheld, rs, rl, lf, due, stats>>
+    [] poisoned -> UNCHANGED <<viol, poisoned, flimit, alimit, binit, bmax, succ, exp, ppf, pheld, rs, rl, lf, due, seen, stats>>
+    [] ~Has(e, "pf") -> UNCHANGED <<viol, poisoned, flimit, alimit, binit, bmax, succ, exp, ppf, pheld, rs, rl, lf, due, seen, stats>>
     [] OTHER ->
         LET now == e.t
             pf == Arr(e.pf)
@@ -96,6 +97,7 @@ Step(e) ==
                    \cup (IF DropOk(after, dExh) THEN {} ELSE {"C24.not-dropped/exhausted"})
         IN /\ exp' = exp1 /\ ppf' = pf /\ pheld' = ArrSet(Arr(e.held))
            /\ rs' = rs1 /\ rl' = rl1 /\ lf' = lf1 /\ due' = due1
+           /\ seen' = seen \cup {ReqPeer(e, c) : c \in sent}
            /\ viol' = IF bad = {} THEN viol ELSE Append(viol, Fail(l, bad, e))
            /\ poisoned' = (bad # {})
            /\ stats' = [stats EXCEPT !.requests = @ + Cardinality(sent),
@@ -104,7 +106,7 @@ Step(e) ==
                                      !.arrivals = @ + (IF isChunk THEN 1 ELSE 0),
                                      !.dropdue = @ + Cardinality(dHeld \cup dExp \cup dExh),
                                      !.zerochecks = @ + (IF isTick THEN 1 ELSE 0),
-                                     !.zerodue = @ + (IF isTick /\ \E p \in PeerIds : p \notin outZero /\ \E c \in ChunkIds : rs[c].peer = p THEN 1 ELSE 0),
+                                     !.zerodue = @ + (IF isTick /\ \E p \in seen : p \notin outZero THEN 1 ELSE 0),
                                      !.atlimit = @ + (IF sent # {} /\ flimit # 0 /\ \E r \in outLimit : Cardinality({s \in outLimit : s[2] = r[2]}) = flimit THEN 1 ELSE 0),
                                      !.doubled = @ + Cardinality({c \in failed : RowOf(pf, c)[3] >= 2 /\ RowOf(pf, c)[4] # -1 /\ RowOf(pf, c)[4] - now > 1000 * Delay(binit, bmax, 1)}),
                                      !.capped = @ + Cardinality({c \in failed : RowOf(pf, c)[4] # -1 /\ bmax > 0 /\ RowOf(pf, c)[4] - now = 1000 * bmax /\ binit * Pow2(Min2(RowOf(pf, c)[3] - 1, 20)) > bmax})]
